@@ -626,12 +626,17 @@ def check_bodies(run, tree, aspects=("layout", "values", "skip")):
     hydro_vars = {"v1": (True, "d"), "v2": (False, "d"), "v3": (True, "d")}
     amr_vars = {"level": (True, "i"), "cpu": (True, "i"), "dx": (True, "d"), "position_x": (True, "d"), "position_y": (True, "d"), "position_z": (True, "d")}
     cases = [(AMR, "amr", amr_vars, L.AMR_BODY, {"ndim": Poly.const(3), "twotondim": Poly.const(8)}, False)]
+    if "values" in aspects:
+        # partial selections of the AMR variables: each remaining variable is still filled from its own axis / record
+        for off in (("position_x",), ("position_x", "position_y", "level"), ("position_y", "dx", "cpu")):
+            cases.append((AMR, "amr", {k: ((k not in off), t) for k, (_, t) in amr_vars.items()}, L.AMR_BODY, {"ndim": Poly.const(3), "twotondim": Poly.const(8)}, False))
     for name, (cq, _) in MESH.items():
         cases.append((cq, name, hydro_vars, L.DOMAIN_HEADER + L.VAR_BODY, {"twotondim": Poly.const(8), "nvar": Poly.const(3)}, True))
     for cq, name, variables, spec, subst, dh in cases:
         m = tree.method(tree.cls(cq), "read_variables")
         run.analysed(m)
-        construct = "%s::owner-block" % cq
+        off = [k for k, (rd, _) in variables.items() if not rd]
+        construct = "%s::owner-block" % cq + ("[not selected: %s]" % ", ".join(off) if cq == AMR and off else "")
         try:
             try:
                 fold, ci, r, info, hooks, B, after_dh = run_block(tree, cq, variables, spec, subst, domain_header=True)
@@ -639,7 +644,7 @@ def check_bodies(run, tree, aspects=("layout", "values", "skip")):
                 run.violated(construct, m.where(), "raises %s" % e, "reading any %s file" % name)
                 continue
             end = position(r._attrs["offsets"])
-            if "layout" in aspects:
+            if "layout" in aspects and not (cq == AMR and off):
                 problems = ["%r: %s" % (e, e.how) for e in fold.misaligned]
                 if not (end == fold.spec.end):
                     problems.append("the block advances the file position by %r bytes, RAMSES writes %r" % (end - B, fold.spec.end - B))
@@ -689,7 +694,7 @@ def check_bodies(run, tree, aspects=("layout", "values", "skip")):
                        "every selected variable: rows [ind*ncache, (ind+1)*ncache) of its buffer <- its own record, scaled by the magnitude and labelled "
                        "with the unit of the same entry",
                        "a variable holds the values of its neighbour, or is scaled with one unit and labelled with another")
-            if "skip" in aspects:
+            if "skip" in aspects and not (cq == AMR and off):
                 base = {k: si("o_" + k) for k in "bidnsql"}
                 fold2 = Fold(None)
                 hooks2 = layout_hooks(fold2)
@@ -718,6 +723,10 @@ def amr_values(r, variables, ncache, ilevel):
 
     def writes(name):
         buf = vars_[name].get("buffer")
+        if not variables[name][0]:
+            if isinstance(buf, ArrBuf) and isinstance(buf._array, NdBuf) and buf._array.writes:
+                problems.append("%s is not selected but its buffer is written" % name)
+            return None
         if not (isinstance(buf, ArrBuf) and isinstance(buf._array, NdBuf)):
             problems.append("buffer of %s is %r" % (name, buf))
             return None
@@ -823,6 +832,63 @@ def check_leaf_rule(run, tree):
         run.violated(construct, m.where(), "raises %s" % e, "any selection")
     except ERR as e:
         run.unresolved(construct, m.where(), "cannot fold: %s" % e)
+
+
+    check_conditions_contract(run, tree)
+
+
+def check_conditions_contract(run, tree):
+    """Loader.load merges the dicts returned by the readers' make_conditions with dict.update and ANDs all values: what every reader returns
+    must therefore be keyed so that no reader overwrites another's entry, and must hold each requested predicate applied to that reader's own
+    buffer exactly once"""
+    readers = {"amr": (AMR, {"level": (True, "i"), "dx": (True, "d")})}
+    readers.update({k: (q, {k + "_a": (True, "d"), k + "_b": (True, "d")}) for k, (q, _) in MESH.items()})
+    construct = "io/reader.py::Reader.make_conditions::entries-survive-the-merge"
+    where = tree.method(tree.cls(AMR), "make_conditions").where()
+    try:
+        select = {}
+        for name, (q, variables) in readers.items():
+            for v in variables:
+                select[v] = (lambda vv: (lambda b: Sym(("pred", vv, origin_of(b)))))(v)
+        select["not_a_variable"] = lambda b: Sym(("pred", "?", origin_of(b)))
+        merged, per, problems = {}, {}, []
+        for name, (q, variables) in readers.items():
+            fold = Fold(None)
+            hooks = layout_hooks(fold, {"numpy.logical_and.reduce": lambda xs, *a, **k: Sym(("and-reduce", tuple(origin_of(x) for x in xs))),
+                                        "numpy.prod": lambda xs, *a, **k: Sym(("and-reduce", tuple(origin_of(x) for x in xs))),
+                                        "numpy.all": lambda xs, *a, **k: Sym(("and-reduce", tuple(origin_of(x) for x in xs)))})
+            ci, r = new_reader(tree, q, hooks, variables)
+            run.analysed(tree.method(ci, "make_conditions"))
+            r._attrs["ref"] = Sym("REF")
+            for v in variables:
+                r._attrs["variables"][v]["buffer"] = Sym("BUF:" + v)
+            c = call(tree, hooks, ci, r, "make_conditions", dict(select))
+            if not isinstance(c, dict):
+                problems.append("%s returns %r" % (name, c))
+                continue
+            per[name] = c
+            for k in c:
+                if k in merged:
+                    problems.append("key %r is returned by the %s reader and by the %s reader: dict.update keeps only the last, the %s reader's mask is dropped" % (k, merged[k], name, merged[k]))
+                merged[k] = name
+            flat = repr([origin_of(v) for v in c.values()])
+            for v in variables:
+                n_ = flat.count(repr(("pred", v, "BUF:" + v)))
+                if n_ != 1:
+                    problems.append("%s reader: the predicate on %s is applied to its buffer %d times (required once)" % (name, v, n_))
+            for other, (_, ovars) in readers.items():
+                if other != name and any(("'pred', '%s'" % ov) in flat for ov in ovars):
+                    problems.append("%s reader evaluates a predicate on a variable of the %s reader" % (name, other))
+            if "'pred', '?'" in flat:
+                problems.append("%s reader evaluates a predicate on a name that is not one of its variables" % name)
+            if name == "amr" and "'REF'" not in flat.replace('"', "'"):
+                problems.append("the AMR reader does not return the leaf flags")
+        run.ob(construct, not problems, where, "; ".join(problems[:3]) or "%d entries from %d readers under distinct keys; every predicate applied once to its own buffer" % (len(merged), len(per)),
+               "a predicate on a hydro variable replaces the AMR reader's level/position mask in the merged dict (or is lost), so rows that fail a predicate are returned")
+    except (Raised, ProgramRaised) as e:
+        run.violated(construct, where, "raises %s" % e, "any selective load")
+    except ERR as e:
+        run.unresolved(construct, where, "cannot fold: %s" % e)
 
 
 # =============================================================================== particle files
